@@ -1,6 +1,6 @@
 From Coq Require Import ZArith List.
 From Coq Require Import Sorted.
-From PV Require Import Base.U64 C07.C07_Model C07.C07_Arith C07.C07_Lists C07.C07_SPSC_Model C07.C07_MPMC_Model C07.C07_Chan_Model C07.C07_Batch_Model C07.C07_Proofs C07.C07_MPMC_Report C07.C07_MPMC_Linear C07.C07_Batch_Fifo.
+From PV Require Import Base.U64 C07.C07_Model C07.C07_Arith C07.C07_Lists C07.C07_SPSC_Model C07.C07_MPMC_Model C07.C07_Chan_Model C07.C07_Batch_Model C07.C07_Proofs C07.C07_MPMC_Report C07.C07_MPMC_Linear C07.C07_Batch_Fifo C07.C07_ChanQ_Model C07.C07_ChanQ_Proofs C07.C07_ChanQ_Thm.
 Import ListNotations.
 Local Open Scope Z_scope.
 
@@ -240,6 +240,48 @@ Theorem chan_no_lost_wakeup_sender :
   creach cap Y (chan_init scripts) st -> lost_wakeup_send cap (length scripts) st = false.
 Proof. exact chan_no_lost_wakeup_send. Qed.
 Print Assumptions chan_no_lost_wakeup_sender.
+
+(* ===== RingChannel over the REAL queue algorithm: the product model C07_ChanQ_Model.v runs send / recv / notify_senders
+   exactly as the protocol model above, but push_fn / pop at the four call sites are the CAS-variant push / pop of the MPMC
+   ring queue executed one atomic operation at a time (mpmc_step) and interleaved with everything else.  x_run c Y st fut =
+   the run under the schedule fut (participant, time-out flavour), ANY list.  Guard: nowrap (2^64 index wrap) on the last
+   state.  C07_ChanQ_Proofs.v proves that it REFINES the protocol over the atomic FIFO (relation indexed by the remaining
+   schedule: the linearisation point of a failing call is only known by looking ahead). ===== *)
+
+(* refinement: some run of the atomic-FIFO protocol model has the same protocol variables and semaphores, the abstract queue
+   absq as its FIFO, and agrees on program point, remaining script and results of every participant that is not in the middle
+   of a queue call *)
+Theorem chanq_refinement :
+  forall c, cfg_ok c -> forall s, 0 <= s -> forall Y scripts fut,
+  nowrap c (x_m (x_run c Y (x_init c s scripts) fut)) ->
+  exists a, creach (c_cap c) Y (chan_init scripts) a /\
+    cfields a = cfields (x_c (x_run c Y (x_init c s scripts) fut)) /\
+    c_q a = absq (x_m (x_run c Y (x_init c s scripts) fut)) /\
+    forall p, x_idle (x_run c Y (x_init c s scripts) fut) p = true ->
+              c_thr a p = c_thr (x_c (x_run c Y (x_init c s scripts) fut)) p.
+Proof. exact chanq_refines. Qed.
+Print Assumptions chanq_refinement.
+
+(* no lost wake-up, consumer side and sender side, for the channel over the fine-grained queue: never (abstract queue
+   non-empty [resp. not full], the semaphore holds no token, some consumer [sender] blocked in its wait, every participant
+   inside an operation is such a blocked one, nobody in the middle of a queue call) *)
+Theorem chanq_no_lost_wakeups :
+  forall c, cfg_ok c -> forall s, 0 <= s -> forall Y scripts, Z.of_nat (length scripts) + 1 < W64 -> forall fut,
+  nowrap c (x_m (x_run c Y (x_init c s scripts) fut)) ->
+  xlost_recv (length scripts) (x_run c Y (x_init c s scripts) fut) = false /\
+  xlost_send (c_cap c) (length scripts) (x_run c Y (x_init c s scripts) fut) = false.
+Proof. exact chanq_no_lost_wakeup. Qed.
+Print Assumptions chanq_no_lost_wakeups.
+
+(* the product model runs and the hypotheses are met: a send and a recv complete through the fine-grained queue *)
+Example chanq_run_ex :
+  let c := cfg_of 2 in
+  let scripts := [[OSend 7]; [ORecv]] in
+  let fut := [(0,0);(0,0);(0,0);(1,0);(1,0);(0,0);(0,0);(0,0);(1,0);(1,0);(1,0);(1,0);(1,0);(1,0);(1,0);(1,0);(1,0);(1,0)]%nat in
+  let st := x_run c 0 (x_init c 0 scripts) fut in
+  cfg_ok c /\ nowrap c (x_m st) /\ Z.of_nat (length scripts) + 1 < W64 /\
+  t_res (c_thr (x_c st) 0%nat) = [RSent 0 7] /\ t_res (c_thr (x_c st) 1%nat) = [RRecv 0 7] /\ absq (x_m st) = [].
+Proof. exact chanq_ex. Qed.
 
 (* ===== batch MPMC ring queue (push_batch / pop_batch / push / pop, ordered publication): ANY number of participants,
    any scripts (pop_batch counts >= 0), any schedule, every capacity 2^k, every start s >= 0, the index-wrap guard
